@@ -131,8 +131,26 @@ Definition upd_atom_f (a : atom) (field : afield) (v : sx) : atom * bool :=
   | ACharge => (a' (a_hetero a) (a_serial a) (a_id a) (a_name a) (a_x a) (a_y a) (a_z a) (a_occ a) (a_b a) (a_elem a) (get_Z v), true)
   | AElement => (a' (a_hetero a) (a_serial a) (a_id a) (a_name a) (a_x a) (a_y a) (a_z a) (a_occ a) (a_b a) (Some (get_Z v)) (a_charge a), true)
   end.
+(* Atom::set_pos: all three coordinates or none *)
+Definition upd_atom_pos (a : atom) (v : sx) : atom * bool :=
+  match v with
+  | SL [vx; vy; vz] =>
+      let '(fx, fy, fz) := (fval_of_sx vx, fval_of_sx vy, fval_of_sx vz) in
+      if (finite fx && finite fy && finite fz)%bool
+      then ({| a_hetero := a_hetero a; a_serial := a_serial a; a_id := a_id a; a_name := a_name a; a_x := fx; a_y := fy; a_z := fz;
+               a_occ := a_occ a; a_b := a_b a; a_elem := a_elem a; a_charge := a_charge a; a_atf := a_atf a |}, true)
+      else (a, false)
+  | _ => (a, false)
+  end.
+Definition upd_atom_atf (a : atom) (v : sx) : atom * bool :=
+  ({| a_hetero := a_hetero a; a_serial := a_serial a; a_id := a_id a; a_name := a_name a; a_x := a_x a; a_y := a_y a; a_z := a_z a;
+      a_occ := a_occ a; a_b := a_b a; a_elem := a_elem a; a_charge := a_charge a; a_atf := Some (map fval_of_sx (get_list v)) |}, true).
+Definition f_pos : string := "pos".
+Definition f_atf : string := "atf".
 Definition upd_atom (a : atom) (field : string) (v : sx) : atom * bool :=
-  match afield_of field with Some f => upd_atom_f a f v | None => (a, false) end.
+  if String.eqb field f_pos then upd_atom_pos a v
+  else if String.eqb field f_atf then upd_atom_atf a v
+  else match afield_of field with Some f => upd_atom_f a f v | None => (a, false) end.
 
 Definition upd_conformer (c : conformer) (field : string) (v : sx) : conformer * bool :=
   match field with
